@@ -7,6 +7,7 @@ import Qentem.Proofs.NumToStrAppend
 import Qentem.Proofs.NumToStrIntClass
 import Qentem.Proofs.NumToStrExact
 import Qentem.Proofs.NumToStrIntClass32
+import Qentem.Proofs.NumToStrLayout
 /-! C10 — number to text equals the reference formatting for every value and precision.
 
 Model: `Qentem.NumToStr` (transcription of `Digit.hpp`), reference: `Qentem.FmtSpec` (ISO C
@@ -251,6 +252,24 @@ theorem digits_exact_or_sticky32 (bits p fmt : Nat) (hp : p ≤ 40)
 /-- non-vacuity: 0.1 at 17 digits — the run is ⌊0.1·10^20⌋ = 10000000000000000555 (20 fractional digits), sticky -/
 example : digitRun f64 (0x3FB999999999999A % 2 ^ 52) ((0x3FB999999999999A / 2 ^ 52) % 2 ^ 11 * 2 ^ 52) 17 0 =
     .ok (10000000000000000555, 2, 20, false, true) := by decide +kernel
+
+/-- number of binary fraction digits of a double (`0` for integers): `52 - ctz(mantissa) ∓ exponent` -/
+abbrev fracBits64 (bits : Nat) : Nat :=
+  Qentem.Proofs.NumToStr.fracBits 52 1023 (bits % 2 ^ 52) ((bits / 2 ^ 52) % 2 ^ 11)
+
+/-- `format_eq_spec_short_fractions`: every double `k · 2^-j` whose binary fraction has `j` digits with
+`0 < j ≤ precision ≤ 40` (any magnitude, e.g. 0.5, 0.375, -1234.5625, 2^-40): its decimal expansion is
+finite with `j` digits, the BigInt pipeline yields exactly those digits (no rounding takes place), and
+Fixed and SemiFixed print exactly `%.{p}f` / its stripped form. -/
+theorem format_eq_spec_short_fractions (pre : List Nat) (bits p f : Nat) (hf : f = 1 ∨ f = 2) (hp : p ≤ 40)
+    (hfin : (bits / 2 ^ 52) % 2 ^ 11 ≠ 2 ^ 11 - 1) (h0 : 0 < fracBits64 bits) (hle : fracBits64 bits ≤ p) :
+    realToString f64 pre bits p f = .ok (pre ++ FmtSpec.format64 bits p (specFmt f)) :=
+  Qentem.Proofs.NumToStr.short_fraction64 pre bits p f hf hp hfin h0 hle
+
+/-- non-vacuity: 0.375 has 3 fraction bits, -1234.5625 has 4 -/
+example : fracBits64 0x3FD8000000000000 = 3 ∧ fracBits64 0xC0934A4000000000 = 4 := by decide
+example : realToString f64 [] 0xC0934A4000000000 6 fmtFixed =
+    .ok [45, 49, 50, 51, 52, 46, 53, 54, 50, 53, 48, 48] := by decide +kernel   -- -1234.562500
 
 /-- `format_eq_spec_partial`: `FormatEqSpec` restricted to the special classes.  The rest — every
 finite non-zero value — is open; see `notes/design-numtostr.md`. -/
